@@ -126,7 +126,11 @@ func checkShape(c srcCase) (msg string, cls string, got string) {
 	if perr != nil {
 		return fmt.Sprintf("rejected %q (%v); by the grammar it is %s", c.Src, perr, want), cls, ""
 	}
-	if got = walkProgram(q); got != want {
+	got = walkProgram(q)
+	if msg := overlongShape(c.Src, got); msg != "" {
+		return msg, cls, ""
+	}
+	if got != want {
 		return fmt.Sprintf("%q parsed as %s ; by jq's precedence table it is %s", c.Src, got, want), cls, got
 	}
 	return "", cls, got
@@ -138,6 +142,9 @@ func checkRoundTrip(c srcCase) (string, string, *gojq.Query) {
 		return "", "rejected", nil
 	}
 	s := q.String()
+	if msg := overlong(c.Src, s); msg != "" {
+		return msg, "accepted", nil
+	}
 	q2, err := parse(s)
 	if err != nil {
 		return fmt.Sprintf("%q prints as %q which does not parse: %v", c.Src, s, err), "accepted", q
@@ -401,6 +408,13 @@ func replayCase(sub string, raw json.RawMessage) string {
 		}
 		msg, _, _ := checkShape(c)
 		return msg
+	case "history":
+		var c histCase
+		if err := json.Unmarshal(raw, &c); err != nil {
+			return "bad replay: " + err.Error()
+		}
+		msg, _ := checkHistory(c)
+		return msg
 	case "roundtrip", "corpus-roundtrip":
 		var c srcCase
 		if err := json.Unmarshal(raw, &c); err != nil {
@@ -436,6 +450,13 @@ func TestC09(t *testing.T) {
 	if rec.ReplayPath() != "" {
 		return
 	}
+	// (H) first and in every shard: parse-history independence.  When it
+	// fails every later parse is suspect (and ASTs may grow without bound),
+	// so the remaining sub-checks of the shard are skipped.
+	if !runHistory() {
+		return
+	}
+
 	avoid := map[string]bool{}
 	for _, c := range []string{clsDotBracket, clsEmptyImport, clsNul} {
 		if rec.KnownClass(c) {
